@@ -63,6 +63,10 @@ def check_dag(ctx, nodes, tag, routes=('ctor', 'builder'), boc=True):
                     ctx.corr_broken(f'model != library {cmp_obs(o, model[i])} node {i} route {route}: {inp}')
             if s is None or not s.valid:
                 ctx.count('invalid:' + (s.why if s else 'child'))
+                if s is not None and s.why == 'depth>1023' and c is not None:
+                    # the depth at SOME level exceeds the limit (e.g. 1 + the depth a pruned branch records for its level 0): no cell
+                    ctx.fail(f'depth-limit:{kind}', f'a type-{kind} cell whose depth exceeds 1023 at one of its levels was constructed '
+                             f'(route {route}, node {i})', inp, {'depths': o['depths'], 'mask': o['mask']}, 'exception')
                 continue
             ctx.count(f'mask:{s.mask}')
             if kind == G.PRUNED:
@@ -250,6 +254,22 @@ def run(ctx):
     for dep in (1021, 1022, 1023, 65535):
         pb = G.pruned_bits(1, [rng.randbytes(32)], [dep])
         check_dag(ctx, [(G.PRUNED, pb, ()), (G.ORD, '', (0,)), (G.ORD, '', (1,))], f'pruned-depth{dep}', boc=False)
+    # the same at every mask and at every level the mask has: the limit applies to each level's depth, not to the last one
+    for mask in range(1, 8):
+        n = G.popcount(mask)
+        for pos in range(n):
+            for dep in (1022, 1023):
+                depths = [rng.randrange(0, 900) for _ in range(n)]
+                depths[pos] = dep
+                pb = G.pruned_bits(mask, [rng.randbytes(32) for _ in range(n)], depths)
+                db = G.DagBuilder()
+                p = db.add(G.PRUNED, pb)
+                o = db.add(G.ORD, '1', (p,))
+                o2 = db.add(G.ORD, '', (o,))
+                nodes = db.nodes[:o2 + 1]
+                if db.ok(o):
+                    nodes = nodes + [(G.MPROOF, G.mproof_bits(db.infos[o]), (o,))]
+                check_dag(ctx, nodes, f'pruned-depth-m{mask}p{pos}d{dep}', boc=False)
 
 
 def replay(ctx, payload):
